@@ -38,9 +38,13 @@ class Rig:
         # masked gridded payloads (flexible mask in the metadata): "partial" - the same cells masked in every
         # publication, "nomask" - a masked array that masks nothing (numpy keeps no mask array for it)
         self.masked = src.get("masked") if self.grid_spec else None
+        self.log_idx = 0
         self.maskarr = None
         if self.masked:
             self.maskarr = (np.round(self.base * 3.7) % 3 == 0) if self.masked == "partial" else np.zeros(self.base.shape, bool)
+            if self.masked == "partial" and not self.maskarr.all():
+                # the logged sample of every delivered array is its first unmasked cell
+                self.log_idx = int(np.flatnonzero(~self.maskarr.reshape(-1))[0])
         # forms of the public API used to build the same link (sc["api"]): bit 0 - slot metadata as keywords instead of an
         # Info object, bit 1 - .chain() instead of >>, bit 2 - metadata handed over late (push_info / exchange_info(info)), bit 3 - adapter constructor arguments in the
         # other documented form (positional <-> keyword)
@@ -187,6 +191,7 @@ def run_e3(sc, scratch=None):
                     "rig": rig, "n_pulls": 0, "n_push": 0}
         reg = registered_targets(sc)
         pulled_once = [False] * len(rig.inputs)
+        held = []
         last_obj = None
         for ei, ev in enumerate(sc["events"]):
             kind = ev[0]
@@ -241,6 +246,8 @@ def run_e3(sc, scratch=None):
                         pass
                 try:
                     d = rig.inputs[ci].pull_data(dt(t))
+                    held.append((ei, ci, d.magnitude, np.ma.copy(d.magnitude)))
+                    del held[:-12]
                     if rig.base is None:
                         act = ("val", mag(d), str(d.units))
                     else:
@@ -264,7 +271,7 @@ def run_e3(sc, scratch=None):
                     act = ("FinamNoDataError", str(e)[:200])
                 except Exception as e:
                     act = (type(e).__name__, str(e)[:300])
-                log.append(("PULL", ci, t, act[0], (act[1] if rig.base is None else float(np.asarray(act[1]).reshape(-1)[0]))
+                log.append(("PULL", ci, t, act[0], (act[1] if rig.base is None else float(np.asarray(act[1]).reshape(-1)[rig.log_idx]))
                             if act[0] == "val" else None))
                 cu = sc["consumers"][ci].get("units")
                 if exp[0] == "val":
@@ -337,6 +344,13 @@ def run_e3(sc, scratch=None):
                       consumer=ci)
                 if got:
                     probe("source_request_compared")
+            # what a consumer received earlier stays what it was, whatever is published or pulled afterwards
+            for (e0, c0, ref, cp) in held:
+                if not np.array_equal(np.ma.getmaskarray(ref), np.ma.getmaskarray(cp)) or \
+                        not np.array_equal(np.ma.getdata(ref)[~np.ma.getmaskarray(cp)], np.ma.getdata(cp)[~np.ma.getmaskarray(cp)]):
+                    v("link-value", "overwritten", f"event {ei}: the data consumer {c0} received at event {e0} was changed "
+                      "in place afterwards", consumer=c0)
+                    break
             if own_scratch and os.listdir(own_scratch):
                 probe("events_with_spilled_entries")
             # ---- C09 bound after every event
@@ -344,9 +358,10 @@ def run_e3(sc, scratch=None):
                     and not sc["src"].get("static"):
                 lasts = []
                 for ci, lm in enumerate(rig.models):
-                    if reg[ci] is not None:
+                    if reg[ci] is not None and not any(a["kind"].startswith("delay") for a in sc["consumers"][ci]["chain"][:reg[ci]]):
                         lasts.append(rig.pubs[-1][0])       # push-based adapter pulled at the last notification
                     elif lm.src_requests:
+                        # (also a push-based adapter behind a delay adapter: its request reaches the source shifted)
                         lasts.append(lm.src_requests[-1])
                 if len(lasts) == len(rig.models):
                     slow = min(F(x) for x in lasts)
